@@ -131,7 +131,7 @@ class Report:
 
     # ---- the deciding step ---------------------------------------------------------
     def prove(self, label, goal, constraints, timeout_ms=30000, tactic=None, inputs=None, replay=None,
-              regions=None, sample=None, linearize=False, quick_ms=4000, rounds=3, lemmas=None):
+              regions=None, sample=None, linearize=False, quick_ms=4000, rounds=3, lemmas=None, soft=False):
         """Ask the solver for a counterexample to `goal` under `constraints`.
 
         inputs(model) -> JSON-able concrete inputs; replay(inputs) -> (bool reproduced, detail)
@@ -194,6 +194,13 @@ class Report:
                     reproduced, detail = False, f"replay raised {type(e).__name__}: {e}"
             it["replay"] = {"reproduced": reproduced, "detail": _jsonable(detail)}
             if not reproduced:
+                if soft:
+                    # the query ran on a deliberate over-approximation (abstracted pre-state): a candidate the real code does not confirm leaves the item undecided
+                    it["verdict"] = "unknown"
+                    it["reason"] = f"candidate from the over-approximated state does not reproduce on the real code: {str(detail)[:300]}"
+                    if self.status == "ok":
+                        self.status = "undecided"
+                    return None
                 self.error(label, f"counterexample does not reproduce on the real code: {detail}")
                 return False
             # does it fall into a known finding's region?
